@@ -67,6 +67,9 @@ type vfDiscCase struct {
 	Kind      string      `json:"kind"`
 	Direct    bool        `json:"direct"`
 	TimeoutMs int         `json:"timeout_ms"`
+	// the instance is built WITHOUT a configured HTTP client: New() makes its default one, whose overall
+	// timeout (measured, not assumed) is what bounds a fetch; timeout_ms is overwritten with that value
+	DefaultClient bool `json:"default_client,omitempty"`
 	Script    []string    `json:"script"` // refused reset e500 e503 malformed truncated slow | doc1 doc2 doc3 partial empty
 	Healthy   string      `json:"healthy"`
 	Pre       []vfDiscReq `json:"pre"`
@@ -356,6 +359,17 @@ func (p *vfDiscProvider) handle(w http.ResponseWriter, r *http.Request) {
 			c.Write(body[:len(body)/2])
 			c.Close()
 		}
+	case "stallbody": // headers and the beginning of the document at once, then nothing: only an overall timeout ends such a fetch
+		w.Header().Set("Content-Type", "application/json")
+		w.WriteHeader(200)
+		w.Write([]byte(`{"issuer":"`))
+		if f, ok := w.(http.Flusher); ok {
+			f.Flush()
+		}
+		select {
+		case <-r.Context().Done():
+		case <-time.After(90 * time.Second):
+		}
 	case "slow":
 		select {
 		case <-r.Context().Done():
@@ -469,6 +483,9 @@ func vfDiscAllowance(n int, T time.Duration) time.Duration {
 // ---- one case
 
 func vfDiscRunCase(p *vfDiscProvider, cs *vfDiscCase) {
+	if cs.DefaultClient {
+		cs.TimeoutMs = int(vfDiscDefaultClientTimeout() / time.Millisecond)
+	}
 	T := time.Duration(cs.TimeoutMs) * time.Millisecond
 	key := fmt.Sprintf("c%d", cs.ID)
 	hold := 100
@@ -517,6 +534,9 @@ func vfDiscRunCase(p *vfDiscProvider, cs *vfDiscCase) {
 		cfg.RateLimit = 100
 		cfg.ExcludedURLs = []string{"/public"}
 		cfg.HTTPClient = client
+		if cs.DefaultClient {
+			cfg.HTTPClient = nil
+		}
 		h, err := New(context.Background(), ru.downstream(), cfg, "vf-disc")
 		if err != nil {
 			cs.Note = "New: " + err.Error()
@@ -714,6 +734,9 @@ func vfDiscCorpus() []*vfDiscCase {
 		// first document differs from the later one
 		{Kind: "two-docs", TimeoutMs: vfDiscTimeoutMs, Script: []string{"e503", "doc2"}, Healthy: "doc1", Pre: vfDiscStdPre(1),
 			Ops: append(vfDiscServe3(), vfDiscOp{O: "shift", Min: 59}, vfDiscOp{O: "refresh"}, g, vfDiscOp{O: "shift", Min: 2}, vfDiscOp{O: "refresh"}, g)},
+		// the DEFAULT client (no HTTPClient configured) against a provider that sends headers and then stalls the body
+		{Kind: "default-client-stall", DefaultClient: true, Script: []string{"stallbody"}, Healthy: "doc1",
+			Pre: []vfDiscReq{{At: "start", Path: "gated", PatienceMs: 40}, {At: "start", Path: "excluded", PatienceMs: 40}}, Ops: []vfDiscOp{g, x}},
 		// one full retry budget of failures, then healthy (F13): initializeMetadata called synchronously ...
 		{Kind: "budget-direct", Direct: true, TimeoutMs: vfDiscTimeoutMs, Script: vfDiscRep("e500", vfDiscBudget), Healthy: "doc1"},
 		// ... and through New(), with requests all along
